@@ -369,8 +369,8 @@ def classify_error(stderr):
     return "other:" + (m[-1] if m else "unknown")
 
 
-def run_case(ctx, case, d):
-    """run the real CLI on the case in directory d; returns the observation dict"""
+def prepare_case(case, d):
+    """write the input files of the case into directory d; returns the CLI arguments and output paths"""
     os.makedirs(d, exist_ok=True)
     reads_path = write_reads(case, d)
     list_path = write_list(case, d)
@@ -402,7 +402,13 @@ def run_case(ctx, case, d):
         hist_path = os.path.join(d, "hist.tsv")
         args += ["--read-lengths-histogram", hist_path]
     args += [reads_path, list_path]
-    rc, so, se = run_cli(ctx, args, cwd=d, timeout=120)
+    return {"args": args, "paths": paths, "hist_path": hist_path, "reads_path": reads_path, "dir": d}
+
+
+def collect(case, prep, rc, se):
+    """the observation dict of one finished run"""
+    paths, hist_path, reads_path = prep["paths"], prep["hist_path"], prep["reads_path"]
+    p = opts_ploidy(case["opts"])
     obs = {"rc": rc, "inputs": input_reads(case, reads_path), "requested": [x is not None for x in paths]}
     if rc != 0:
         obs["error"] = classify_error(se)
@@ -429,12 +435,73 @@ def run_case(ctx, case, d):
     return obs
 
 
+def run_case(ctx, case, d):
+    """run the real CLI (one `python -m whatshap split ...` process) on the case in directory d"""
+    prep = prepare_case(case, d)
+    rc, so, se = run_cli(ctx, prep["args"], cwd=d, timeout=120)
+    return collect(case, prep, rc, se)
+
+
 def run_cases(ctx, cases, root, jobs=16):
     def one(ic):
         i, case = ic
         return run_case(ctx, case, os.path.join(root, f"c{i}"))
     with ThreadPoolExecutor(max_workers=jobs) as ex:
         return list(ex.map(one, enumerate(cases)))
+
+
+BATCH_DRIVER = r"""
+import io, json, os, sys, traceback, logging
+from whatshap.__main__ import main
+jobs = json.load(sys.stdin)
+res = []
+for job in jobs:
+    os.chdir(job["dir"])
+    root = logging.getLogger()
+    for h in list(root.handlers):
+        root.removeHandler(h)
+    err = io.StringIO()
+    old = sys.stderr
+    sys.stderr = err
+    rc = 0
+    try:
+        try:
+            main(job["args"])
+        except SystemExit as e:
+            rc = e.code if isinstance(e.code, int) else (0 if e.code is None else 1)
+        except BaseException:
+            traceback.print_exc(file=err)
+            rc = 1
+    finally:
+        sys.stderr = old
+    res.append({"rc": rc, "stderr": err.getvalue()[-3000:]})
+print("RESULTS " + json.dumps(res))
+"""
+
+
+def run_cases_batch(ctx, cases, root, jobs=16):
+    """the same CLI entry point (whatshap.__main__.main(argv), argument parser and validate included),
+    but many cases per interpreter process -- used for the large exhaustive stream"""
+    import json
+    from .util import run_py
+    preps = [prepare_case(case, os.path.join(root, f"c{i}")) for i, case in enumerate(cases)]
+    chunks = [list(range(k, len(cases), jobs)) for k in range(jobs)]
+    chunks = [c for c in chunks if c]
+
+    def one(idx):
+        payload = json.dumps([{"args": preps[i]["args"], "dir": preps[i]["dir"]} for i in idx])
+        rc, so, se = run_py(ctx, BATCH_DRIVER, cwd=root, stdin=payload, timeout=3000)
+        line = [x for x in so.splitlines() if x.startswith("RESULTS ")]
+        if rc != 0 or not line:
+            raise RuntimeError("batch driver failed: " + se[-2000:])
+        return json.loads(line[-1][len("RESULTS "):])
+    with ThreadPoolExecutor(max_workers=jobs) as ex:
+        results = list(ex.map(one, chunks))
+    obs = [None] * len(cases)
+    for idx, res in zip(chunks, results):
+        for i, r in zip(idx, res):
+            obs[i] = collect(cases[i], preps[i], r["rc"], r["stderr"])
+    return obs
 
 
 # ------------------------------------------------------------------------------------ Coq terms
